@@ -296,11 +296,15 @@ def run_mask_helpers(ctx):
         keep = [keep[int(j)] for j in r.choice(len(keep), size=70, replace=False)]
         rest = [t for t in sizes if t not in keep]
         sizes = keep + [rest[int(j)] for j in r.choice(len(rest), size=60, replace=False)]
-    else:   # thorough: every row / column block shape and a sample of 500 of the other 2900 triples
+    else:   # thorough: every row / column block shape and a sample of 200 of the other 2900 triples
         keep = [t for t in sizes if t[0] == 1 or t[1] == 1]
         rest = [t for t in sizes if t[0] > 1 and t[1] > 1]
-        sizes = keep + [rest[int(j)] for j in r.choice(len(rest), size=500, replace=False)]
-    for bh, bw, n in sizes:
+        sizes = keep + [rest[int(j)] for j in r.choice(len(rest), size=200, replace=False)]
+    for i_sz, (bh, bw, n) in enumerate(sizes):
+        if i_sz % 25 == 24:
+            # every block of every size is a separately compiled scatter: thousands of live XLA executables exhaust the process's
+            # memory mappings (the thorough tier segfaulted inside XLA's compile step); drop them regularly
+            s["jax"].clear_caches()
         rr, cc = np.indices((bh * n, bw * n))
         got = np.asarray(fm.block_diag_mask((bh, bw), n))
         u.count(("bdiag-large", bh, bw, n), nontrivial=n > 1, tag="bdiag-large")
